@@ -20,6 +20,7 @@ import (
 	govtypes "github.com/cosmos/cosmos-sdk/x/gov/types"
 	"github.com/ethereum/go-ethereum/common"
 	ethtypes "github.com/ethereum/go-ethereum/core/types"
+	"github.com/evmos/ethermint/crypto/ethsecp256k1"
 	evmtypes "github.com/evmos/ethermint/x/evm/types"
 
 	"github.com/Canto-Network/Canto/v8/contracts"
@@ -46,6 +47,8 @@ type csrSuite struct {
 	ids     []uint64         // NFT ids whose Turnstile balance is observed
 	nChild  int
 	huge    bool
+	key     *ethsecp256k1.PrivKey // signs the real Ethereum transactions (derived from the PRNG)
+	keyAddr common.Address
 }
 
 var csrIDPool = []uint64{0, 1, 2, 3, 4, 5, 6, 7, 8, 9, 1 << 63, math.MaxUint64}
@@ -76,6 +79,16 @@ func (s *csrSuite) newWorld(withTurnstile, huge bool) {
 		panic("unexpected evm denom " + d)
 	}
 	csrPrepareCtx(w)
+	kb := make([]byte, 32)
+	for i := range kb {
+		kb[i] = byte(s.r.Next())
+	}
+	kb[0] |= 1
+	kb[0] &= 0x7f
+	s.key = &ethsecp256k1.PrivKey{Key: kb}
+	s.keyAddr = common.BytesToAddress(s.key.PubKey().Address().Bytes())
+	s.alias(s.keyAddr, "k0")
+	w.App.AccountKeeper.SetAccount(w.Ctx, w.App.AccountKeeper.NewAccountWithAddress(w.Ctx, accOf(s.keyAddr)))
 	s.ms = csrkeeper.NewMsgServerImpl(w.App.CSRKeeper)
 	s.callers, s.foreign, s.coded, s.plain = nil, nil, nil, nil
 	s.ids = append([]uint64{}, csrIDPool...)
@@ -719,6 +732,141 @@ func (s *csrSuite) opCall() int {
 	return s.opHook(logs, &target)
 }
 
+// opEthTx: a signed Ethereum transaction through the real message server (EvmKeeper.EthereumTx → ApplyTransaction → the
+// erc20 and csr hooks on the receipt ethermint builds → gas refund). What the hook was given is taken from a dry run of the
+// same message; the refund ethermint pays afterwards (leftover gas × price, fee collector → sender) is written on the line so
+// that the driver can take it out of the observed ledger before comparing with the model of the hook.
+func (s *csrSuite) opEthTx() int {
+	r := s.r
+	w := s.w
+	if !s.hasTs || !w.App.CSRKeeper.GetParams(w.Ctx).EnableCsr {
+		return s.opHook(nil, nil)
+	}
+	var target common.Address
+	var data []byte
+	var err error
+	recipient := common.BytesToAddress(w.Users[r.Intn(5)].Bytes())
+	switch k := r.Intn(10); {
+	case k < 4 && len(s.callers) > 0:
+		i := r.Intn(len(s.callers))
+		target = s.callers[i]
+		s.callers = append(s.callers[:i:i], s.callers[i+1:]...)
+		data, err = csrSmartContract.ABI.Pack("register", recipient)
+	case k < 8:
+		target = s.factory // registers a fresh child every time; the factory itself may be registered (then the fee is split)
+		data, err = csrFactoryContract.ABI.Pack("register", recipient)
+	default:
+		target = s.ts // a plain call of the Turnstile (which a forged receipt may have registered)
+		data, err = contracts.TurnstileContract.ABI.Pack("currentCounterId")
+	}
+	if err != nil {
+		panic(err)
+	}
+	gasLimit := uint64(1_500_000 + r.Intn(1_000_000))
+	gasPrice := []*big.Int{big.NewInt(0), big.NewInt(1), big.NewInt(7), big.NewInt(1_000_000_000), big.NewInt(25_000_000_000)}[r.Intn(5)]
+	nonce := w.App.EvmKeeper.GetNonce(w.Ctx, s.keyAddr)
+	// dry run: what the EVM will produce
+	dryRun := func(limit uint64) (sdk.Context, *evmtypes.MsgEthereumTxResponse, bool) {
+		dry, _ := w.Ctx.CacheContext()
+		dmsg := ethtypes.NewMessage(s.keyAddr, &target, nonce, big.NewInt(0), limit, gasPrice, gasPrice, gasPrice, data, ethtypes.AccessList{}, false)
+		res, derr := w.App.EvmKeeper.ApplyMessage(dry, dmsg, evmtypes.NewNoOpTracer(), true)
+		return dry, res, derr == nil && !res.Failed()
+	}
+	// one transaction in ten is meant to be failed by the hook: the fee collector is left one unit short of the fee. That
+	// needs fee > refund (ethermint still refunds the leftover gas), i.e. a gas limit below twice the gas used.
+	wantFail := gasPrice.Sign() > 0 && r.Intn(10) == 0
+	if wantFail {
+		wantFail = false
+		for _, l := range []uint64{250_000, 400_000, 600_000, 900_000, 1_300_000} {
+			if _, res, ok := dryRun(l); ok && res.GasUsed > l/2 {
+				gasLimit, wantFail = l, true
+				break
+			}
+		}
+	}
+	dry, res0, ok := dryRun(gasLimit)
+	if !ok {
+		s.stat["ethtx:evm-reverted"]++
+		return s.opHook(nil, nil)
+	}
+	logs := evmtypes.LogsToEthereum(res0.Logs)
+	for _, l := range logs {
+		if l.Address == s.factory && len(l.Data) == 32 {
+			child := common.BytesToAddress(l.Data)
+			s.alias(child, fmt.Sprintf("f%d", s.nChild))
+			s.nChild++
+			s.coded = append(s.coded, child)
+		}
+	}
+	logTok := logsTok(w, dry, logs) // code existence as the hook will see it: after the message ran
+	// the ante handler's part: gasLimit * gasPrice goes to the fee collector before the message runs
+	n := 0
+	upfront := sdkmath.NewIntFromBigInt(new(big.Int).Mul(new(big.Int).SetUint64(gasLimit), gasPrice))
+	fee := sdkmath.NewIntFromBigInt(new(big.Int).Mul(new(big.Int).SetUint64(res0.GasUsed), gasPrice))
+	cur := w.App.BankKeeper.GetBalance(w.Ctx, s.fcAddr(), s.denom).Amount
+	switch {
+	case wantFail:
+		short := fee.SubRaw(1)
+		if cur.GT(short) {
+			s.opSend(s.fcAddr(), w.Users[0], s.denom, cur.Sub(short))
+			n++
+		} else if cur.LT(short) {
+			s.opSend(w.Users[0], s.fcAddr(), s.denom, short.Sub(cur))
+			n++
+		}
+	case upfront.IsPositive() && (cur.LT(upfront) || r.Intn(2) == 0):
+		s.opSend(w.Users[0], s.fcAddr(), s.denom, upfront)
+		n++
+	}
+	// sign and deliver
+	signer := ethtypes.LatestSignerForChainID(w.App.EvmKeeper.ChainID())
+	raw := ethtypes.NewTx(&ethtypes.LegacyTx{Nonce: nonce, GasPrice: gasPrice, Gas: gasLimit, To: &target, Value: big.NewInt(0), Data: data})
+	sig, err := s.key.Sign(signer.Hash(raw).Bytes())
+	if err != nil {
+		panic(err)
+	}
+	signed, err := raw.WithSignature(signer, sig)
+	if err != nil {
+		panic(err)
+	}
+	tx := &evmtypes.MsgEthereumTx{}
+	if err := tx.FromEthereumTx(signed); err != nil {
+		panic(err)
+	}
+	tx.From = s.keyAddr.Hex()
+	preMod, pre := s.modState(), w.Snapshot()
+	var res *evmtypes.MsgEthereumTxResponse
+	out := w.Deliver(func(ctx sdk.Context) error {
+		rr, err := w.App.EvmKeeper.EthereumTx(ctx, tx)
+		res = rr
+		return err
+	})
+	gasUsed := res0.GasUsed
+	refund := big.NewInt(0)
+	switch {
+	case !out.OK:
+		// a panic inside a hook (a 256-bit overflow in a "huge" world) comes up through the message server; baseapp's runTx
+		// would recover it and fail the transaction: nothing is written, nothing is refunded
+		if out.Class != "panic" {
+			panic("EthereumTx returned an error: " + out.Err)
+		}
+	case res.VmError == evmtypes.ErrPostTxProcessing.Error():
+		out = Outcome{OK: false, Class: "evm/post-tx-processing"} // a hook failed: ethermint reverted the transaction
+		refund = new(big.Int).Mul(new(big.Int).SetUint64(gasLimit-res.GasUsed), gasPrice)
+	case res.Failed():
+		panic("transaction failed in the EVM after a successful dry run: " + res.VmError)
+	default:
+		if res.GasUsed != res0.GasUsed {
+			panic(fmt.Sprintf("gas used differs from the dry run: %d vs %d", res.GasUsed, res0.GasUsed))
+		}
+		refund = new(big.Int).Mul(new(big.Int).SetUint64(gasLimit-res.GasUsed), gasPrice)
+	}
+	args := fmt.Sprintf("to=%s gu=%d gp=%s logs=%s refund=%s rto=%s", s.tok(target), gasUsed, gasPrice.String(), logTok, refund.String(), s.tok(s.keyAddr))
+	s.emit("hook", args, out, preMod, pre)
+	s.stat["ethtx:"+out.String()]++
+	return n + 1
+}
+
 func (s *csrSuite) opParams() int {
 	r := s.r
 	w := s.w
@@ -839,8 +987,10 @@ func runCsr(seed uint64, nOps int, outPath string) map[string]int {
 				k = 85 // do not linger in the disabled state
 			}
 			switch {
-			case k < 68:
+			case k < 62:
 				n = s.opHook(nil, nil)
+			case k < 68:
+				n = s.opEthTx()
 			case k < 80:
 				n = s.opCall()
 			case k < 90:
